@@ -56,6 +56,11 @@ const SNIPPETS: &[(&str, &str)] = &[
     ("closure_escapes_then_throw", "var esc = nil;\nfn mk() { var x = \"kept\"; esc = || x; throw \"after escape\"; }\nmk();\n"),
     ("closure_escapes_in_fiber_then_throw", "var escf = nil;\nFiber.new(|| { var y = \"kept in fiber\"; escf = || y; throw \"after escape in fiber\"; }).call();\n"),
     ("probe_escaped_closures", "var junk = [];\nfor i in 0..40 { junk.push(\"s${i}\"); }\nprint(esc());\nprint(escf());\n"),
+    ("assign_undefined_global", "ug1 = 5;\n"),
+    ("assign_undefined_global_in_call", "fn setg() { ug2 = [1, 2]; }\nsetg();\n"),
+    ("assign_undefined_global_in_fiber", "Fiber.new(|| { ug3 = \"leak\"; }).call();\n"),
+    ("var_with_failing_initialiser", "var ug4 = [][3];\n"),
+    ("probe_never_defined_globals", "try { print(ug1); } catch e { print(type(e)); }\ntry { print(ug2); } catch e { print(type(e)); }\ntry { print(ug3); } catch e { print(type(e)); }\ntry { print(ug4); } catch e { print(type(e)); }\ntry { print(Bad); } catch e { print(type(e)); }\ntry { ug1 = 1; } catch e { print(type(e)); }\n"),
     ("import_m", "import \"m\";\nprint(m.v);\n"),
     ("bump_m", "m.v = m.v + 1;\nprint(m.v);\n"),
     ("reset", "\u{0}reset"),
@@ -175,6 +180,11 @@ fn step(s: &St, name: &str) -> (St, Vec<String>, String) {
                 (n, vec!["kept".into(), "kept in fiber".into()], ok)
             }
         }
+        "assign_undefined_global" => (n, vec![], name_err("ug1")),
+        "assign_undefined_global_in_call" => (n, vec![], name_err("ug2")),
+        "assign_undefined_global_in_fiber" => (n, vec![], name_err("ug3")),
+        "var_with_failing_initialiser" => (n, vec![], "Unhandled IndexError".into()),
+        "probe_never_defined_globals" => (n, vec!["<class NameError>".to_string(); 6], ok),
         "import_m" => {
             let mut out = Vec::new();
             if !s.m_loaded {
@@ -248,6 +258,39 @@ pub fn run(ctx: &Ctx) -> Report {
             }
         }
     }
+    // The search above merges histories that lead to the same *model* state and replays one of them; a
+    // snippet that leaves the model state unchanged (every failing one) is therefore never followed by
+    // anything in a replay.  Second family without merging: every history up to length 3 (4) over the
+    // whole alphabet, so every snippet is run after every snippet (pair).
+    {
+        let plain = if thorough { 4 } else { 3 };
+        let mut frontier: Vec<(St, Vec<&'static str>, Vec<Vec<String>>, Vec<String>)> = vec![(initial(), vec![], vec![], vec![])];
+        for _ in 0..plain {
+            let mut next = Vec::new();
+            for (s, path, outs, ends) in &frontier {
+                for (name, _) in SNIPPETS {
+                    let (n, out, end) = step(s, name);
+                    let mut p2 = path.clone();
+                    p2.push(*name);
+                    let mut o2 = outs.clone();
+                    o2.push(out);
+                    let mut e2 = ends.clone();
+                    e2.push(end);
+                    let snippets: Vec<String> = p2.iter().map(|nm| SNIPPETS.iter().find(|(k, _)| k == nm).unwrap().1.to_string()).collect();
+                    cases.push(Expect {
+                        family: "every_history_without_merging",
+                        request: Request { op: "run".into(), snippets, modules: modules.clone(), fuel: Some(1_000_000), gc: Some(proto::GcSpec { mode: "default".into(), only: vec![], quarantine: true }), want: vec!["uaf".into()], ..Default::default() },
+                        out: o2.clone(),
+                        end: e2.clone(),
+                        describe: json!({"history": p2}),
+                        nontrivial: p2.len() >= 2 && e2.iter().any(|e| e != "ok"),
+                    });
+                    next.push((n, p2, o2, e2));
+                }
+            }
+            frontier = next;
+        }
+    }
     // after a reset any continuation equals its run on a new interpreter: the model says so by
     // construction (reset -> initial state); additionally every single snippet right after
     // <failing snippet>, reset
@@ -256,7 +299,7 @@ pub fn run(ctx: &Ctx) -> Report {
     expect::fill(
         &mut report,
         &stats,
-        "breadth-first search over histories of snippets fed to one interpreter, with canonical reference state (surviving globals, functions, classes, fiber objects, loaded modules); alphabet of 28 snippets: definitions and uses, a compile error, uncaught throws at top level / two calls deep / inside a fiber / inside try-finally / while a class is half-declared / from a built-in inside a method, clean try/finally, try/catch and class+loop probes, a fiber left suspended inside try/finally and resumed by a later snippet, probes of a fiber that died from an uncaught throw and of a chain of two such fibers (both must be finished), closures that escaped into globals from a call frame / a fiber discarded by an uncaught throw and are called later (swept objects quarantined: any touch of freed memory is a violation), import and module mutation, reset. Every transition is replayed as the shortest history reaching its source state plus the snippet, on a fresh real interpreter; each snippet's printed lines and outcome must equal the model's; no snippet may panic.",
+        "breadth-first search over histories of snippets fed to one interpreter, with canonical reference state (surviving globals, functions, classes, fiber objects, loaded modules); alphabet of 33 snippets: definitions and uses, a compile error, uncaught throws at top level / two calls deep / inside a fiber / inside try-finally / while a class is half-declared / from a built-in inside a method, clean try/finally, try/catch and class+loop probes, a fiber left suspended inside try/finally and resumed by a later snippet, probes of a fiber that died from an uncaught throw and of a chain of two such fibers (both must be finished), closures that escaped into globals from a call frame / a fiber discarded by an uncaught throw and are called later (swept objects quarantined: any touch of freed memory is a violation), assignments to undefined globals that end the snippet (top level, in a call, in a fiber) and a `var` whose initialiser fails, with a probe that none of those names came into being, import and module mutation, reset. Every transition is replayed as the shortest history reaching its source state plus the snippet, on a fresh real interpreter; each snippet's printed lines and outcome must equal the model's; no snippet may panic. Because that search merges histories by model state, a second family runs every history up to length 3 (4) over the whole alphabet without merging, so that every snippet - in particular every failing one, which leaves the model state unchanged - is followed by every other.",
         json!({"history_length": depth, "snippets": SNIPPETS.len()}),
     );
     report.cov("states", json!(states));
